@@ -309,7 +309,7 @@ def make_aggregator(name, p, dt, pref_dt=None):
     if name == "PCGrad":
         return PCGrad()
     if name == "GradDrop":
-        return GradDrop(leak=vec_t(p.get("leak"), dt))
+        return GradDrop(leak=vec_t(p.get("leak"), pref_dt or dt))
     if name == "TrimmedMean":
         return TrimmedMean(trim_number=int(p["b"]))
     if name == "Krum":
